@@ -16,6 +16,11 @@ from .. import env, contracts
 NCOLS = 26 + 26 ** 2 + 26 ** 3 + 26 ** 4   # 475254
 
 
+class Label(str):
+    """a string that is not exactly `str` (as numpy.str_, enum members with a str mixin, or a host's own label type are)"""
+    __slots__ = ()
+
+
 class Check(BaseCheck):
     ID = 'C19'
     TITLE = 'Cell labels and row/column indices correspond one-to-one'
@@ -79,7 +84,7 @@ class Check(BaseCheck):
             rec.case(3)
             if lab != exp:
                 rec.violation('C19/column_index_to_label', index=i, got=lab, expected=exp)
-            back = hc.column_label_to_index(exp)
+            back = hc.column_label_to_index(exp if i % 7 else Label(exp))
             if back != i:
                 rec.violation('C19/column_label_to_index', label=exp, got=back, expected=i)
             lo = hc.column_label_to_index(exp.lower())
@@ -143,6 +148,9 @@ class Check(BaseCheck):
         for _ in range(spec['n']):
             lab, (ca, ci, ra, ri) = self._rand_label(rnd)
             rec.case()
+            if rnd.random() < 0.15:
+                lab = Label(lab)
+                rec.count('labels_given_as_str_subclass')
             got = hc.extract_label(lab)
             why = contracts.extract_problem(lab, got)
             if why:
